@@ -237,7 +237,7 @@ def r04_4(ctx: Ctx):
     er, tw = got
     roles = C.roles_of(ctx)
     pcs = roles.problem_calcs
-    ex = ctx.explorer(inline=lambda f, st: f is tw)
+    ex = ctx.explorer(inline=lambda f, st: roles.in_tw(f))
     item = var(er.param_names[1])
     ident = identity_perm(ctx, tw)
     setz = ctx.ix.cls('SearchDataItem').lookup('SetZ')
@@ -395,6 +395,7 @@ def r04_6(ctx: Ctx):
     item = ctx.ix.cls('SearchDataItem')
     setters = {roles.fq(item.lookup(n)) for n in ('SetZ', 'SetIndex') if item.lookup(n)}
     allowed = {roles.fq(er), roles.fq(tw), roles.fq(rf)} | pcs | setters
+    allowed |= {roles.fq(h) for h in roles.helpers_of(tw)}       # private helpers the task wrapper was split into
     n = 0
     trial_containers = set()
     for o in list(ctx.pta._objs.values()):
